@@ -65,6 +65,7 @@ def main():
                 print("%s %s %-36s %4ds  %s" % (sid, p, v, time.time() - t0, what[:110]), flush=True)
         finally:
             subprocess.run(["git", "-C", REPO, "checkout", "--", "."])
+            subprocess.run(["git", "-C", REPO, "clean", "-fdq", "src"])      # files a patch added
         results[sid] = res
         json.dump(results, open(path, "w"), indent=1, sort_keys=True)
     with open(os.path.join(SEEDED, "RESULTS.md"), "w") as f:
